@@ -428,6 +428,10 @@ def run(repo, res, tier):
             args = [norm(a) for a in u.args] + ["%s=%s" % (k.arg, norm(k.value)) for k in u.keywords]
             tail = [a for a in args if a in (tr, an) or a.endswith("=" + tr) or a.endswith("=" + an)]
             ok = tail == [tr, an] or tail == ["translation=" + tr, "angle=" + an]
+            # the motion is p -> R(a)(p + t): the function that rotates first and translates afterwards has the same
+            # signature but is another map
+            if cn.split(".")[-1] in ("rotate_translate", "rotation_translation_matrix") and qn.endswith("translate_rotate"):
+                ok = False
             # no arithmetic on the motion parameters anywhere in the arguments
             for a in list(u.args) + [k.value for k in u.keywords]:
                 for x in ast.walk(a):
